@@ -2,6 +2,11 @@
 //
 //	verifrun <Cxx> <quick|thorough> [--replay file] [--scenario id]
 //	verifrun child <prop> <tier> <seed> <race> <from> <to> <only> <outfile>   (internal)
+// The library's go.mod says go 1.18: its own tests (and every user whose main module predates go 1.23) run with the
+// old asynchronous timer channels, where a stopped or reset timer may still deliver a stale tick. The harness module
+// needs go 1.23 for its own code, so the old behaviour is selected explicitly: it is the more hostile of the two.
+//
+//go:debug asynctimerchan=1
 package main
 
 import (
